@@ -158,6 +158,10 @@ fn gen_scenario(kind: Kind, w: &mut W) -> Scenario {
     if first == SYS_MODE {
         return sys_scenario(kind, w);
     }
+    if first == NOTIFIED_MODE && kind == Kind::C18 && w.tape.draw(4) == 0 {
+        // the rest of the tape is read by `c18b::run`
+        return Scenario { stream_gate: None, yield_first: false, clients: vec![], late: vec![], singles: vec![], suspends: false, mode: "REAL-SMOL".into(), real: vec![] };
+    }
     if first == NOTIFIED_MODE && kind == Kind::C10 {
         // the rest of the tape is read by `c10n::run`
         return Scenario { stream_gate: None, yield_first: false, clients: vec![], late: vec![], singles: vec![], suspends: false, mode: "NOTIFIED".into(), real: vec![] };
@@ -453,6 +457,9 @@ impl Prop for ServerProp {
         let mut sc = gen_scenario(self.kind, &mut world.borrow_mut());
         if sc.mode == "NOTIFIED" {
             return crate::props::c10n::run(world);
+        }
+        if sc.mode == "REAL-SMOL" {
+            return crate::props::c18b::run(world);
         }
         let needs_limit = sc.clients.iter().any(|c| c.faults.iter().any(|f| matches!(f, Fault::Oversize { .. })));
         // The lowered limit must stay far above every legitimate burst in this world: the reader
@@ -785,6 +792,15 @@ impl Prop for ServerProp {
             w.stat_add("fairness_intervals_checked", sc.singles.len() as u64);
         }
         Ok(world.borrow().scenario.clone())
+    }
+
+    fn watchdog_secs(&self) -> Option<u64> {
+        // C18's real-socket slice issues syscalls
+        if self.kind == Kind::C18 {
+            Some(120)
+        } else {
+            None
+        }
     }
 
     fn systematic(&self, tier: Tier) -> Vec<Vec<u32>> {
